@@ -314,6 +314,10 @@ def _analyse_target(case, tier, props, p, meta, tdir, res, tr, jac_terms, seed):
                 _replay_fex(case, p, meta, tdir, res, "C01", name, i, fex, m, slots, NS, thermal, nat, seed)
             else:
                 _unk(res, "C01", name, "solver " + r)
+        # the temperature equation divides by the particle density: the emitted helper it calls is the sum of the
+        # species abundances (the state vector of a thermal network carries the temperature behind them)
+        if thermal and NS >= 1:
+            _c01_numdens(case, p, tdir, res, q, NEQ, NS, tag)
         # the integrator evaluates the right-hand side over and over: a second evaluation in the state the first left
         if NS >= 1 and NR >= 1:
             _c01_second_call(case, p, tdir, res, fex, q, NEQ, tag)
@@ -1029,6 +1033,44 @@ def _c03_target(case, p, meta, tdir, res, fex, jac, J, structural, q, NEQ, NNZ, 
             _viol(res, "C03", f"{tag}:pattern", f"jac_pattern.dat marks different entries than the Jacobian stores, e.g. {diff}", {"case": case.name, "target": tdir, "diff": diff})
         else:
             _ok(res, "C03")
+
+
+def _c01_numdens(case, p, tdir, res, q, NEQ, NS, tag):
+    from . import harness as H
+    from .irsym import Ptr, State
+
+    name = f"{tag}:GetNumDens"
+    L = ode.load_physics(p, tdir)
+    if L.errors:
+        tu, err = next(iter(L.errors.items()))
+        _unk(res, "C01", f"{name}:compile", f"{tu}: " + next((l for l in err.splitlines() if "error:" in l), err[:160])[-160:])
+        return
+    try:
+        fn = L.find(r"^GetNumDens\(")
+    except Exception as ex:
+        _unk(res, "C01", name, f"no GetNumDens in the emitted physics source: {str(ex)[:100]}")
+        return
+    res["functions"].append(f"{tdir}:GetNumDens")
+    yv = [z3.Real(f"nd_y{i}") for i in range(NEQ)]
+    st = State()
+    H.make_array(st, "v", NEQ, yv)
+    try:
+        _, v = L.M.run_function(fn, st, [Ptr("v", 0)])
+    except Inconclusive as ex:
+        _unk(res, "C01", name, str(ex)[:160])
+        return
+    ref = z3.RealVal(0)
+    for i in range(NS):
+        ref = ref + yv[i]
+    r, m = q.differs(v, ref)
+    if r == "unsat":
+        _ok(res, "C01")
+    elif r == "sat":
+        pt = {str(d): str(m[d]) for d in m.decls()[:12]} if m is not None else {}
+        _viol(res, "C01", name, f"the particle density of the temperature equation, GetNumDens(y) = {str(z3.simplify(R(v)))[:200]}, is not the sum of the {NS} species abundances", {"case": case.name, "target": tdir, "model": pt, "spec": _small_spec(case),
+              "replay_note": "linear identity over the compiled helper of the emitted naunet_physics source; the summation bound is visible there"})
+    else:
+        _unk(res, "C01", name, r)
 
 
 def _c01_second_call(case, p, tdir, res, fex, q, NEQ, tag):
